@@ -235,6 +235,17 @@ class Index:
             if rel.endswith(".py") and os.environ.get("ALLFEDSA_NO_CANON") != "1":
                 from .canon import canonicalise, namedtuples_as_tuples
                 from .canon import flatten_tuple_params
+                if rel.startswith("src/"):
+                    from .canon import read_through_stubs
+                    n_st = read_through_stubs(tree, self._stubs())
+                    if n_st:
+                        self.canon_counts["delegating stubs read through"] = self.canon_counts.get("delegating stubs read through", 0) + n_st
+                if rel.startswith("src/"):
+                    from .canon import unpack_nt_params
+                    n_ntp = unpack_nt_params(tree, self._namedtuples()[0], self._nt_params())
+                    if n_ntp:
+                        self.canon_counts["named-tuple parameters read as parallel parameters"] = \
+                            self.canon_counts.get("named-tuple parameters read as parallel parameters", 0) + n_ntp
                 n_tp = flatten_tuple_params(tree, self._tuple_params()) if rel.startswith("src/") else 0
                 if n_tp:
                     self.canon_counts["tuple parameters flattened"] = self.canon_counts.get("tuple parameters flattened", 0) + n_tp
@@ -286,6 +297,13 @@ class Index:
                         parsed[rel] = ast.parse(f.read())
                 except (SyntaxError, OSError):
                     continue
+                # signatures are compared as the rules will read them: grouped parameters (a tuple or named tuple) flattened first
+                try:
+                    from .canon import unpack_nt_params, flatten_tuple_params
+                    unpack_nt_params(parsed[rel], self._namedtuples()[0], self._nt_params())
+                    flatten_tuple_params(parsed[rel], self._tuple_params())
+                except Exception:
+                    pass
                 for n in ast.walk(parsed[rel]):
                     if isinstance(n, ast.FunctionDef):
                         all_defs[n.name] = all_defs.get(n.name, 0) + 1
@@ -336,6 +354,12 @@ class Index:
                         mod = ast.parse(f.read())
                 except (SyntaxError, OSError):
                     continue
+                try:
+                    from .canon import unpack_nt_params, flatten_tuple_params
+                    unpack_nt_params(mod, self._namedtuples()[0], self._nt_params())
+                    flatten_tuple_params(mod, self._tuple_params())
+                except Exception:
+                    pass
                 defs = []
                 for n in mod.body:
                     if isinstance(n, ast.FunctionDef):
@@ -518,16 +542,35 @@ class Index:
             self._anchors = names
         return self._anchors
 
+    def _raw_src(self):
+        raw = []
+        for r in self.py_files("src"):
+            try:
+                with open(self.path(r), encoding="utf-8") as f:
+                    raw.append(ast.parse(f.read()))
+            except (SyntaxError, OSError):
+                continue
+        return raw
+
+    def _stubs(self):
+        if getattr(self, "_stub_tab", None) is None:
+            from .canon import stub_table
+            self._stub_tab = stub_table(self._raw_src())
+        return self._stub_tab
+
+    def _nt_params(self):
+        if getattr(self, "_ntp", None) is None:
+            from .canon import nt_param_table
+            self._ntp = nt_param_table(self._raw_src(), self._namedtuples()[0])
+        return self._ntp
+
     def _tuple_params(self):
         if getattr(self, "_tp", None) is None:
-            from .canon import tuple_param_table
-            raw = []
-            for r in self.py_files("src"):
-                try:
-                    with open(self.path(r), encoding="utf-8") as f:
-                        raw.append(ast.parse(f.read()))
-                except (SyntaxError, OSError):
-                    continue
+            from .canon import tuple_param_table, unpack_nt_params
+            raw = self._raw_src()
+            if self._nt_params():
+                for t_ in raw:
+                    unpack_nt_params(t_, self._namedtuples()[0], self._nt_params())
             self._tp = tuple_param_table(raw)
         return self._tp
 
@@ -1305,6 +1348,14 @@ class HelperView:
         for k in call.keywords:
             if k.arg:
                 self.bind[k.arg] = caller_inl.expr(k.value)
+        # a parameter the call leaves out stands for its (literal) default
+        a_ = helper_fn.args
+        for p, d in zip([x.arg for x in a_.args][len(a_.args) - len(a_.defaults):], a_.defaults):
+            if p not in self.bind and isinstance(d, ast.Constant):
+                self.bind[p] = d
+        for x, d in zip(a_.kwonlyargs, a_.kw_defaults):
+            if x.arg not in self.bind and isinstance(d, ast.Constant):
+                self.bind[x.arg] = d
         self.params = set()
         self.defs = self.inner.defs
 
